@@ -63,7 +63,8 @@ type pkt struct {
 	scmpT  int
 	scmpC  int
 	sp, dp int
-	ulen   string // ok | long
+	ulen   string // ok | long | tail<hex>: length field as for pld, but <hex> follows behind the bytes it delimits
+	tail   []byte // ulen = tail…: the bytes behind the window the UDP length field delimits
 	pld    []byte
 	mac    string // oracle: hex of the MAC the server computes | "err" | "-" (not applicable)
 	ntp    string // oracle: ok | bad
@@ -192,7 +193,15 @@ func parseOp(toks []string) (*pkt, bool) {
 	}
 	p.sp = int(num("sp", 0, 65535))
 	p.dp = int(num("dp", 0, 65535))
-	p.ulen = enum("ulen", "ok", "long")
+	if v := kv["ulen"]; strings.HasPrefix(v, "tail") && len(v) > 4 {
+		t, ok := unhex(v[4:])
+		if !ok || len(t) == 0 {
+			okAll = false
+		}
+		p.ulen, p.tail = v, t
+	} else {
+		p.ulen = enum("ulen", "ok", "long")
+	}
 	p.pld = hx("pld")
 	p.mac = kv["mac"]
 	if !isHexOr(p.mac, "err") {
@@ -301,6 +310,13 @@ func (p *pkt) bytes() ([]byte, error) {
 		return nil, err
 	}
 	b := append([]byte(nil), buf.Bytes()...)
+	if p.l4 == "udp" && len(p.tail) > 0 {
+		// re-framed: more L4 data behind the bytes the (untouched) UDP length field delimits; the SCION
+		// header's payload length (bytes 6, 7) is fixed up
+		b = append(b, p.tail...)
+		n := (int(b[6])<<8 | int(b[7])) + len(p.tail)
+		b[6], b[7] = byte(n>>8), byte(n)
+	}
 	if p.l4 == "udp" && p.ulen == "long" {
 		// UDP length field one beyond the whole datagram
 		off := len(b) - 8 - len(p.pld)
@@ -346,12 +362,14 @@ func (p *pkt) macUnder(key []byte) ([]byte, error) {
 	} else {
 		return nil, err
 	}
+	// the authenticated upper-layer data: the UDP header and the payload its length field delimits
+	// (for a well-formed packet: the last bytes of the datagram)
 	udp := make([]byte, 8+len(p.pld))
 	b, err := p.bytes()
 	if err != nil {
 		return nil, err
 	}
-	copy(udp, b[len(b)-len(udp):])
+	copy(udp, b[len(b)-len(p.tail)-len(udp):])
 	if p.ulen == "long" {
 		return nil, errors.New("n/a")
 	}
@@ -426,6 +444,7 @@ type parsed struct {
 	scmp    slayers.SCMP
 	pathRaw []byte
 	l4raw   []byte // L4 header + payload as on the wire
+	l4len   int    // number of bytes from the L4 header to the end of the datagram
 }
 
 func parseDatagram(b []byte) (*parsed, error) {
@@ -444,7 +463,9 @@ func parseDatagram(b []byte) (*parsed, error) {
 	switch decoded[len(decoded)-1] {
 	case slayers.LayerTypeSCIONUDP:
 		r.l4 = "udp"
-		r.l4raw = b[len(b)-8-len(r.udp.Payload):]
+		// the UDP header sits where the layer parser found it (Contents is a sub-slice of b)
+		r.l4len = len(b) - (cap(b) - cap(r.udp.Contents))
+		r.l4raw = b[len(b)-r.l4len:][:8+len(r.udp.Payload)]
 	case slayers.LayerTypeSCMP:
 		r.l4 = "scmp"
 		r.l4raw = b[len(b)-4-len(r.scmp.Payload):]
